@@ -787,17 +787,18 @@ func check(id, tier string) int {
 		"fault_kinds_configured_but_never_fired": zeroFaults(p, agg.Counts),
 		"fault_kinds_not_injected":               "message loss/duplication, partitions, crash/restart, disk errors, clock skew between nodes, allocation failure: none - the library has no such surface",
 		"probes":                                 probeCounts(agg.Counts),
-		"counters":                               agg.Counts,
-		"corpus_files_replayed":                  len(corpus),
-		"corpus_hits":                            corpusHits,
-		"build_s":                                buildS,
-		"components_real":                        p.Real,
-		"components_modelled":                    p.Modelled,
-		"components_stubbed":                     p.Stubbed,
-		"known_findings_hit":                     knownHit,
-		"simgen":                                 sc.simgen,
-		"rewrite_sanity":                         rewriteTest,
-		"block_coverage_of_anchor_files":         coverage,
+		"probes_reached_on_the_pinned_tree_but_not_in_this_run": zeroProbes(id, agg.Counts),
+		"counters":                       agg.Counts,
+		"corpus_files_replayed":          len(corpus),
+		"corpus_hits":                    corpusHits,
+		"build_s":                        buildS,
+		"components_real":                p.Real,
+		"components_modelled":            p.Modelled,
+		"components_stubbed":             p.Stubbed,
+		"known_findings_hit":             knownHit,
+		"simgen":                         sc.simgen,
+		"rewrite_sanity":                 rewriteTest,
+		"block_coverage_of_anchor_files": coverage,
 	}
 	if p.Tier == "H" {
 		cov["clients"] = 1
@@ -1065,6 +1066,16 @@ func zeroFaults(p *propInfo, c map[string]int64) []string {
 		}
 		if c[k] == 0 {
 			out = append(out, f)
+		}
+	}
+	return out
+}
+
+func zeroProbes(id string, c map[string]int64) []string {
+	out := []string{}
+	for _, p := range probesOnPinned[id] {
+		if c["probe."+p] == 0 {
+			out = append(out, p)
 		}
 	}
 	return out
